@@ -30,6 +30,13 @@ def model_check(rep: Any, cfgs: list[str], negatives: dict[str, str], ctx: Any) 
 
 def run_traces(rep: Any, scenarios: list[dict[str, Any]], label: str, nontrivial: Any = None) -> tuple[list[dict[str, Any]], dict[str, Any]]:
     """(B): run scenarios on the real operator, have TLC judge the traces; violations are recorded in rep."""
+    # ... some of them once more in a crowd: a second kind of the same plural in another group (objects o1 -- the namesake of the main
+    # object -- and o2, handlers and a daemon of its own, the daemon under the id of the main object's) and a second object of the main
+    # kind, all created, edited, deleted and re-created on a schedule of their own; the main object must behave as if it were alone
+    crowd = [dict(sc_, crowd=True, id=sc_['id'] + '-crowd') for sc_ in scenarios
+             if sc_.get('profile') in ('progress', 'converge', 'resume', 'finalizer', 'consistency', 'mixed', 'errors', 'timeouts', 'stealth', 'subs')
+             and not sc_.get('drs') and all(not (e_[2] in ('stop', 'kill') and e_[0] <= 2) for e_ in sc_.get('env', []))]
+    scenarios = list(scenarios) + crowd[:max(12, len(crowd) // 6)]
     with ProcessPoolExecutor(16) as ex:
         traces = list(ex.map(H.run_scenario, scenarios, chunksize=4))
     verdicts = H.judge(traces, rep, f'Trace_Handling[{label}]')
